@@ -23,7 +23,8 @@ import (
 // ---- upgrade / CONNECT tunnels and the error paths -------------------------------------------------------
 
 type TCase struct {
-	Kind     string `json:"kind"` // upgrade | connect | unreachable | silent
+	Kind     string `json:"kind"` // upgrade | connect | unreachable | silent | hold
+	Held     int    `json:"held"` // hold: streamed responses kept open on the route while another request must still be served
 	Enc      bool   `json:"enc"`
 	Comp     bool   `json:"comp"`
 	TCPMux   bool   `json:"tcpmux"`
@@ -38,13 +39,14 @@ type TCase struct {
 }
 
 func genT(t *rapid.T) TCase {
-	c := TCase{Kind: rapid.SampledFrom([]string{"upgrade", "upgrade", "connect", "unreachable", "silent"}).Draw(t, "kind"), Enc: rapid.Bool().Draw(t, "enc"), Comp: rapid.Bool().Draw(t, "comp"),
+	c := TCase{Kind: rapid.SampledFrom([]string{"upgrade", "upgrade", "connect", "unreachable", "silent", "hold"}).Draw(t, "kind"), Enc: rapid.Bool().Draw(t, "enc"), Comp: rapid.Bool().Draw(t, "comp"),
 		TCPMux: rapid.Bool().Draw(t, "tcpmux"), TimeoutS: rapid.IntRange(1, 2).Draw(t, "timeout"), Closer: rapid.SampledFrom([]string{"user", "backend"}).Draw(t, "closer"),
 		Method: rapid.SampledFrom([]string{"GET", "POST", "PUT"}).Draw(t, "method"), Others: rapid.IntRange(0, 3).Draw(t, "others")}
 	lens := []int{0, 1, 17, 4096, 65537, 300000}
 	c.Up = Body{Len: rapid.SampledFrom(lens).Draw(t, "uplen"), Seed: rapid.Uint32().Draw(t, "upseed"), Chunk: rapid.SampledFrom([]int{1, 100, 4096, 65536}).Draw(t, "upchunk")}
 	c.Down = Body{Len: rapid.SampledFrom(lens).Draw(t, "downlen"), Seed: rapid.Uint32().Draw(t, "downseed"), Chunk: rapid.SampledFrom([]int{1, 100, 4096, 65536}).Draw(t, "downchunk")}
 	c.Linger = rapid.IntRange(0, 2).Draw(t, "linger") == 0
+	c.Held = rapid.SampledFrom([]int{2, 5, 6, 9}).Draw(t, "held")
 	if c.Method != "GET" {
 		// several MiB: more than the buffers between frps and frpc hold, so the request cannot be written out unless somebody reads it
 		c.BodyLen = rapid.SampledFrom([]int{0, 10, 70000, 8 << 20, 24 << 20}).Draw(t, "bodylen")
@@ -89,7 +91,7 @@ func runT(c TCase) error {
 		return err
 	}
 	defer s.Close()
-	desc := fmt.Sprintf("[%s linger=%v enc=%v comp=%v tcpMux=%v timeout=%ds up=%d/%d down=%d/%d closer=%s %s body=%d others=%d]", c.Kind, c.Linger, c.Enc, c.Comp, c.TCPMux, c.TimeoutS, c.Up.Len, c.Up.Chunk, c.Down.Len, c.Down.Chunk, c.Closer, c.Method, c.BodyLen, c.Others)
+	desc := fmt.Sprintf("[%s linger=%v enc=%v comp=%v tcpMux=%v timeout=%ds up=%d/%d down=%d/%d closer=%s %s body=%d others=%d held=%d]", c.Kind, c.Linger, c.Enc, c.Comp, c.TCPMux, c.TimeoutS, c.Up.Len, c.Up.Chunk, c.Down.Len, c.Down.Chunk, c.Closer, c.Method, c.BodyLen, c.Others, c.Held)
 
 	up, down := bodyBytes(c.Up), bodyBytes(c.Down)
 	var linger time.Duration
@@ -102,11 +104,30 @@ func runT(c TCase) error {
 		closedAt time.Time
 		reqLine  string
 	}
+	holdRelease := make(chan struct{})
 	backendDone := make(chan tunnelRes, 4)
 	silentHit := make(chan struct{}, 4)
 	// route 0: the backend under test; route 1: a plain echoing backend for the bystander requests
 	handler := http.HandlerFunc(func(w http.ResponseWriter, r *http.Request) {
 		switch {
+		case c.Kind == "hold":
+			if strings.HasPrefix(r.URL.Path, "/hold") {
+				w.Header().Set("Content-Type", "text/plain")
+				w.WriteHeader(200)
+				_, _ = io.WriteString(w, "first\n")
+				if f, ok := w.(http.Flusher); ok {
+					f.Flush()
+				}
+				select {
+				case <-holdRelease:
+				case <-r.Context().Done():
+				case <-time.After(30 * time.Second):
+				}
+				_, _ = io.WriteString(w, "last\n")
+				return
+			}
+			w.Header().Set("Content-Type", "text/plain")
+			_, _ = io.WriteString(w, "fast:"+r.URL.Path)
 		case c.Kind == "silent":
 			_, _ = io.Copy(io.Discard, r.Body)
 			silentHit <- struct{}{}
@@ -304,6 +325,57 @@ func runT(c TCase) error {
 		return nil
 	}
 
+	if c.Kind == "hold" {
+		// c.Held users keep a streamed response open on the route (each has seen its first chunk); one more request
+		// to the SAME route must still be served: in-flight exchanges are not a quota
+		var held []net.Conn
+		defer func() {
+			for _, h := range held {
+				h.Close()
+			}
+		}()
+		for i := 0; i < c.Held; i++ {
+			cn, e := net.DialTimeout("tcp", vhost, 3*time.Second)
+			if e != nil {
+				return fx.Inconclusive("%v", e)
+			}
+			held = append(held, cn)
+			_ = cn.SetDeadline(time.Now().Add(15 * time.Second))
+			fmt.Fprintf(cn, "GET /hold%d HTTP/1.1\r\nHost: %s\r\n\r\n", i, domainOf(0))
+			br := bufio.NewReader(cn)
+			resp, e := http.ReadResponse(br, nil)
+			if e != nil || resp.StatusCode != 200 {
+				return fmt.Errorf("%s: held request %d of %d got no streamed response (%v)", desc, i, c.Held, e)
+			}
+			line, e := bufio.NewReader(resp.Body).ReadString('\n')
+			if e != nil || line != "first\n" {
+				return fmt.Errorf("%s: held request %d: first chunk %q (%v)", desc, i, line, e)
+			}
+		}
+		t0 := time.Now()
+		cn, e := net.DialTimeout("tcp", vhost, 3*time.Second)
+		if e != nil {
+			return fx.Inconclusive("%v", e)
+		}
+		defer cn.Close()
+		_ = cn.SetDeadline(time.Now().Add(8 * time.Second))
+		fmt.Fprintf(cn, "GET /fast HTTP/1.1\r\nHost: %s\r\n\r\n", domainOf(0))
+		resp, e := http.ReadResponse(bufio.NewReader(cn), nil)
+		if e != nil {
+			close(holdRelease)
+			return fmt.Errorf("%s: with %d streamed responses open on the route, one more request to it got no answer within 8 s (%v)", desc, c.Held, e)
+		}
+		body, _ := io.ReadAll(resp.Body)
+		close(holdRelease)
+		if resp.StatusCode != 200 || string(body) != "fast:/fast" {
+			return fmt.Errorf("%s: with %d streamed responses open, the extra request was answered %d %q", desc, c.Held, resp.StatusCode, body)
+		}
+		if d := time.Since(t0); d > 3*time.Second {
+			return fmt.Errorf("%s: with %d streamed responses open, the extra request took %v", desc, c.Held, d)
+		}
+		return nil
+	}
+
 	// ---- error paths: the faulty request and, meanwhile, normal requests elsewhere
 	type ans struct {
 		status int
@@ -383,6 +455,6 @@ func runT(c TCase) error {
 func TestTunnelsAndErrors(t *testing.T) {
 	fx.Run(t, fx.Spec[TCase]{Prop: "C02", Name: "upgrade_connect_errors", Quick: 96, Thorough: 1200, Gen: genT, Run: runT, Retry: true, ShrinkTime: "40s",
 		Class: func(c TCase) fx.Class {
-			return fx.Class{NonTrivial: c.Up.Len+c.Down.Len > 0 || c.Kind == "unreachable" || c.Kind == "silent", Fingerprint: fmt.Sprintf("%+v", c), Labels: []string{"kind=" + c.Kind}}
+			return fx.Class{NonTrivial: c.Up.Len+c.Down.Len > 0 || c.Kind == "unreachable" || c.Kind == "silent" || c.Kind == "hold", Fingerprint: fmt.Sprintf("%+v", c), Labels: []string{"kind=" + c.Kind}}
 		}})
 }
